@@ -89,6 +89,7 @@ def run(ctx):
     _context_interface(ctx, dump)
     _vregs_before_trees(ctx)
     from .c05 import phi_lowering
+    cast_lowering(ctx, "C29.R10")
     phi_lowering(ctx, "C29.R8")      # the CFG preparation before selection must not die on any verifier-valid shape (cjmp c ? S : S)
 
 
@@ -240,3 +241,38 @@ def _vregs_before_trees(ctx):
     txt = " ".join(norm(cv).split())
     ok = "u.group is not node.group" in txt and "len(data_output.users) > 1" in txt and "frame.new_reg(" in txt
     ctx.ob("C29.R9", DS + ":DagSplitter.check_vreg", "a value gets a register when it has several users or a user in another block", ok, construct="cross-block-gets-vreg")
+
+
+def cast_lowering(ctx, rid):
+    """The selection DAG gets one conversion node per ir.Cast: from the type of the cast's OWN operand to the cast's own type, applied
+    to the value of that operand.  Looking through the operand (a cast of a cast) is only sound for some signedness combinations -
+    i8 -> u32 -> i64 sign-extends to 32 bits and then ZERO-extends - and is the optimizer's business (C38), not the builder's."""
+    ctx.rule(rid, "DAG builder, casts: the conversion is taken from the type of the cast's own operand (node.src.ty, pointer-normalised) to node.ty and applied to the value of node.src - no looking through the operand", floor=4)
+    dc = ctx.fn(D, "SelectionGraphBuilder.do_cast")
+    site = D + ":SelectionGraphBuilder.do_cast"
+    par = [a.arg for a in dc.args.args if a.arg != "self"][0]
+    defs = {}
+    for n in walk_no_nested(dc):
+        if isinstance(n, ast.Assign) and len(n.targets) == 1 and isinstance(n.targets[0], ast.Name):
+            defs.setdefault(n.targets[0].id, []).append(n.value)
+    def origins(e, depth=0):
+        """set of texts an expression may denote, local names expanded through ALL their assignments"""
+        if isinstance(e, ast.Name) and e.id in defs and depth < 6:
+            out = set()
+            for v in defs[e.id]:
+                out |= origins(v, depth + 1)
+            return out
+        if isinstance(e, ast.Attribute):
+            return {b + "." + e.attr for b in origins(e.value, depth + 1)}
+        return {norm(e)}
+    gv = [c for c in walk_no_nested(dc) if isinstance(c, ast.Call) and norm(c.func) == "self.get_value" and c.args]
+    ctx.need(len(gv) >= 1, "do_cast: no operand value is fetched")
+    for c in gv:
+        o = origins(c.args[0])
+        ctx.ob(rid, site, "the converted value is the cast's own operand (%s.src)" % par, o == {par + ".src"}, construct="operand", node=c, detail="may be %s" % sorted(o))
+    for name, want in (("from_ty", {par + ".src.ty", "self.ptr_ty"}), ("to_ty", {par + ".ty", "self.ptr_ty"})):
+        o = origins(ast.Name(id=name, ctx=ast.Load()))
+        ctx.ob(rid, site, "%s is %s (or the pointer integer type in its place)" % (name, sorted(want)[0]), o == want, construct="type:" + name, detail="may be %s" % sorted(o))
+    nn = [c for c in walk_no_nested(dc) if isinstance(c, ast.Call) and norm(c.func) == "self.new_node"]
+    ok = len(nn) == 1 and len(nn[0].args) == 3 and norm(nn[0].args[1]) == par + ".ty" and origins(nn[0].args[2]) <= {"self.get_value(%s.src)" % par}
+    ctx.ob(rid, site, "one conversion node is created with the cast's result type and that operand", ok, construct="node")
